@@ -34,6 +34,9 @@ pub struct VolCfg {
     /// large sparse volumes (C20): FS-info hint placement and pre-filled table windows
     #[serde(default)]
     pub large: Option<LargeCfg>,
+    /// non-zero: the device makes short transfers (seed of the size sequence); see dev::DevInner::short_io
+    #[serde(default)]
+    pub short_io: u8,
 }
 
 #[derive(Clone, Debug, Serialize, Deserialize, PartialEq, Eq, Hash)]
@@ -95,6 +98,9 @@ pub const GEN_PRESETS: &[(usize, u8, fn() -> GenGeom)] = &[
     (14, 1, || GenGeom { rsvd: 8, fsinfo: 1, bkboot: 6, high_nibbles: true, ..Default::default() }),
 ];
 
+/// (FAT width, cluster count, sectors per cluster)
+pub const BOUNDARY_CLUSTERS: &[(u8, u32, u8)] = &[(12, 4084, 1), (12, 4083, 2), (16, 4085, 1), (16, 4086, 4), (16, 65524, 1), (16, 65523, 2), (32, 65525, 1), (32, 65526, 1)];
+
 impl VolCfg {
     pub fn from_preset(i: usize) -> VolCfg {
         let p = &PRESETS[i % PRESETS.len()];
@@ -113,6 +119,7 @@ impl VolCfg {
             access_date: false,
             gen: None,
             large: None,
+            short_io: 0,
         }
     }
     /// generated-geometry variants (what the library's formatter cannot produce)
@@ -128,12 +135,44 @@ impl VolCfg {
         }
         v
     }
+    /// volumes whose cluster count sits exactly on (or next to) a FAT-width limit, built by imggen::mkfs: the largest
+    /// FAT12 (4084 clusters, cluster numbers up to 0xFF5), the smallest and largest FAT16, the smallest FAT32
+    pub fn boundary(i: usize) -> VolCfg {
+        let (fat, clusters, spc) = BOUNDARY_CLUSTERS[i % BOUNDARY_CLUSTERS.len()];
+        let (rsvd, root_entries, nfats) = if fat == 32 { (32u64, 0u16, 2u64) } else { (1u64, 32u16, 2u64) };
+        let bps = 512u64;
+        let root_secs = (root_entries as u64 * 32 + bps - 1) / bps;
+        let mut total = rsvd + root_secs + clusters as u64 * spc as u64;
+        loop {
+            match imggen::fat_size(fat, bps, spc as u64, rsvd, nfats, root_secs, total) {
+                Some((_, c)) if c >= clusters as u64 => break,
+                _ => total += 1,
+            }
+        }
+        VolCfg {
+            fat,
+            bps: bps as u16,
+            spc,
+            fats: nfats as u8,
+            root_entries,
+            total_sectors: total as u32,
+            free_lo: None,
+            free_hi: 0,
+            fsinfo_unknown: false,
+            pad_sectors: 8,
+            status0: 0,
+            access_date: false,
+            gen: Some(GenGeom { rsvd: rsvd as u16, ..Default::default() }),
+            large: None,
+            short_io: 0,
+        }
+    }
     pub fn cluster_size(&self) -> u32 {
         self.bps as u32 * self.spc as u32
     }
     fn base_key(&self) -> VolCfg {
         // status byte and access-date option do not affect the cached base
-        VolCfg { status0: 0, access_date: false, ..self.clone() }
+        VolCfg { status0: 0, access_date: false, short_io: 0, ..self.clone() }
     }
 }
 
@@ -275,7 +314,11 @@ pub fn make_device(cfg: &VolCfg) -> Result<MemDev, String> {
         let raw = refdec::RawBpb::read(&store);
         store.write_at(raw.status_off(), &[cfg.status0 & 3]);
     }
-    Ok(MemDev::new(store))
+    let dev = MemDev::new(store);
+    if cfg.short_io != 0 {
+        dev.with(|d| d.short_io = 0x9E37_79B9_7F4A_7C15u64.wrapping_mul(cfg.short_io as u64) | 1);
+    }
+    Ok(dev)
 }
 
 pub fn self_test() -> Result<(), String> {
@@ -289,9 +332,16 @@ pub fn self_test() -> Result<(), String> {
         }
         let _ = st.len();
     }
-    for i in 0..GEN_PRESETS.len() {
+    for i in 0..GEN_PRESETS.len() + BOUNDARY_CLUSTERS.len() {
         for tiny in [false, true] {
-            let mut cfg = VolCfg::from_gen_preset(i);
+            let mut cfg = if i < GEN_PRESETS.len() { VolCfg::from_gen_preset(i) } else { VolCfg::boundary(i - GEN_PRESETS.len()) };
+            if i >= GEN_PRESETS.len() {
+                let want = BOUNDARY_CLUSTERS[i - GEN_PRESETS.len()].1 as u64;
+                let g = Geom::parse(&make_device(&cfg)?.snapshot())?;
+                if g.clusters != want {
+                    return Err(format!("boundary volume {} has {} clusters, wanted {}", i - GEN_PRESETS.len(), g.clusters, want));
+                }
+            }
             if tiny {
                 cfg.free_lo = Some(6);
                 cfg.free_hi = 2;
